@@ -38,6 +38,27 @@ authority check inside its handler (extracted by the translator into `handlerAut
 theorem policy_complete : ∀ ix : IxId, unprivileged.contains ix = true ∨ Protected ix = true := by
   intro ix; cases ix <;> decide +kernel
 
+/-- every attribute-less instruction that can write an account and is neither on the by-design
+allow-list nor checked in its handler is OWNER-BOUND: some account is tied to a signer by the accounts
+struct, so only the recorded owner can present it (exercised natively by `c19 ocall`) -/
+theorem writable_unguarded_is_owner_bound :
+    ∀ ix : IxId, (info ix).attr = none → (info ix).writable = true → handlerAuth ix = .none →
+      unprivileged.contains ix = false → OwnerBound ix = true := by
+  intro ix; cases ix <;> decide +kernel
+
+/-- liquidity-provider and competition carry no `access_control` attribute at all: every one of their
+instructions is owner-bound or on the allow-list -/
+theorem lp_competition_owner_bound :
+    ∀ ix : IxId, ((info ix).program = .liquidity_provider ∨ (info ix).program = .competition) →
+      (info ix).attr = none ∧ (OwnerBound ix = true ∨ unprivileged.contains ix = true) := by
+  intro ix; cases ix <;> decide +kernel
+
+/-- a signer who is not the recorded owner never gets past account validation of an owner-bound
+instruction; the recorded owner does -/
+theorem owner_call_semantics (ix : IxId) (h : OwnerBound ix = true) :
+    ownerCallPasses ix false = false ∧ ownerCallPasses ix true = true := by
+  simp [ownerCallPasses, h]
+
 /-- the in-handler authority checks, exactly: the six owner-or-keeper `close_*` (ORDER_KEEPER, only
 for finished actions), `close_glv_shift` (keeper only: it also carries the attribute),
 `claim_fees_from_market` (treasury receiver), `approve_instruction(s)` (timelocked role) -/
